@@ -126,6 +126,13 @@ def apply_edits(las, edits):
             m = max(1, n - int(e[1]))
             for c in las.curves:
                 c.data = c.data[:m].copy()
+        elif k == "index_interior":
+            # only samples strictly inside the index move: first, last and length stay, STEP (first increment) changes
+            if n < 3:
+                continue
+            d = las.curves[0].data.astype(float).copy()
+            d[1:-1] = d[1:-1] + float(e[1]) * (d[-1] - d[0]) / (n - 1)
+            las.curves[0].data = d
         elif k == "index_irregular":
             d = las.curves[0].data.astype(float).copy()
             d[-1] = d[-1] + float(e[1])
@@ -203,7 +210,7 @@ def oracle(case):
     index_ever_edited = not was_read
     all_kinds = set()
     prev_text = None
-    INDEX_EDITS = {"index_shift", "index_reverse", "index_truncate", "index_irregular", "index_inplace",
+    INDEX_EDITS = {"index_shift", "index_reverse", "index_truncate", "index_irregular", "index_inplace", "index_interior",
                    "setdata_drop_top", "data_assign_stride", "setdata_df"}
     for n, edits in enumerate(rounds):
         idx_before = np.array(las.curves[0].data, dtype=float, copy=True) if len(las.curves) else np.array([])
@@ -301,6 +308,7 @@ EDIT = st.one_of(
     st.tuples(st.just("index_inplace"), st.sampled_from([0.25, 1.0, -0.5])),
     st.tuples(st.just("index_inplace"), st.sampled_from([0.25, 1.0, -0.5])),
     st.tuples(st.just("index_truncate"), st.integers(1, 3)),
+    st.tuples(st.just("index_interior"), st.sampled_from([0.25, -0.125, 0.4])),
     st.tuples(st.just("setdata_drop_top"), st.integers(1, 3)),
     st.tuples(st.just("data_assign_stride")),
     st.tuples(st.just("setdata_df"), st.integers(1, 2)),
@@ -326,7 +334,7 @@ OPTS = opts_with_index_format()
 def corpus_cases(tier):
     optsets = [{}, {"version": 1.2, "wrap": True}, {"version": 2, "wrap": False, "fmt": "%.3f"}]
     editsets = [[], [["index_shift", 0.5]], [["index_reverse"]], [["index_inplace", 0.25]], [["curve_set", 0, 1, 1.5], ["header_set", "W", 0, "edited"]],
-                [["index_truncate", 2]], [["setdata_drop_top", 1]], [["data_assign_stride"]]]
+                [["index_truncate", 2]], [["setdata_drop_top", 1]], [["data_assign_stride"]], [["index_interior", 0.25]]]
     for f in inputs.corpus_files():
         for o in optsets:
             for e in editsets:
